@@ -362,11 +362,49 @@ def out_val(out):
     return Internal
 
 
-def model_term(rec, orig):
-    d = 'None' if not rec['dflt'] else '(Some %d)' % NUM[rec['dflt']]
+def group_term(recs, orig):
+    """one Coq term for all requests on one (graph, default): list of rendered outcomes"""
+    r0 = recs[0]
+    d = 'None' if not r0['dflt'] else '(Some %d)' % NUM[r0['dflt']]
+    g = '(%s : graph)' % graph_term(r0['g'])
     if orig:
-        return 'show (Orig.run %s %s %s %s)' % (graph_term(rec['g']), d, zlist(rec['req']), zlist(rec['top']))
-    return 'show (run %s %s %s)' % (graph_term(rec['g']), d, zlist(rec['req']))
+        return ('map (fun rp : list name * list name => show (Orig.run %s %s (fst rp) (snd rp))) [%s]'
+                % (g, d, '; '.join('(%s, %s)' % (zlist(r['req']), zlist(r['top'])) for r in recs)))
+    return 'map (fun r : list name => show (run %s %s r)) [%s]' % (g, d, '; '.join(zlist(r['req']) for r in recs))
+
+
+def build_cases(recs, orig, per=16):
+    """group records with the same graph/default (same dependency iteration orders)"""
+    groups, order = {}, []
+    for r in recs:
+        key = json.dumps([r['g'], r['dflt']])
+        if key not in groups or len(groups[key][-1]) >= per:
+            groups.setdefault(key, []).append([])
+            order.append((key, len(groups[key]) - 1))
+        groups[key][-1].append(r)
+    cases, members = [], []
+    for key, k in order:
+        rs = groups[key][k]
+        cases.append((group_term(rs, orig), [out_val(r['out']) for r in rs]))
+        members.append(rs)
+    return cases, members
+
+
+def run_cases_chunked(ctx, cases, chunk=1200, par=4):
+    """ctx.run_cases numbers cases with unary nat literals: keep the indices small, run chunks side by side"""
+    from concurrent.futures import ThreadPoolExecutor
+    chunks = [cases[i:i + chunk] for i in range(0, len(cases), chunk)]
+    bad, failed = [], False
+
+    def one(k):
+        return ctx.run_cases('tasks%d' % k, ['Spec.BuildSpec', 'Model.Tasks'], chunks[k])
+    with ThreadPoolExecutor(max_workers=par) as ex:
+        for k, res in enumerate(ex.map(one, range(len(chunks)))):
+            if res is None:
+                failed = True
+            else:
+                bad += [k * chunk + i for i in res]
+    return None if failed else bad
 
 
 WITNESSES = [
@@ -413,7 +451,7 @@ def families_for(ctx, deep):
         {'kind': 'labelled', 'n': 3, 'loops': True, 'records': True, 'name': 'labelled-3'},
         {'kind': 'missing', 'n': 1, 'records': True, 'name': 'missing-1'},
         {'kind': 'missing', 'n': 2, 'records': True, 'name': 'missing-2'},
-        {'kind': 'missing', 'n': 3, 'sample': 40, 'records': True, 'name': 'missing-3-sample'},
+        {'kind': 'missing', 'n': 3, 'sample': 25, 'records': True, 'name': 'missing-3-sample'},
         {'kind': 'reqorder', 'n': 4, 'count': 600, 'default_masks': [0, 0x0008, 0x0842, 0x8421, 0x0124, 0x1248],
          'records': True, 'name': 'request-order-4'},
         {'kind': 'reqorder', 'n': 5, 'count': 600, 'records': True, 'name': 'request-order-5'},
@@ -487,7 +525,7 @@ def run(ctx):
     if res is None:
         return
     ctx.cov['stages']['python'] = res['python']
-    cases, recs = [], []
+    recs = []
     seen = set()
     for fam in res['families']:
         name = fam['spec']['name']
@@ -506,7 +544,6 @@ def run(ctx):
             eff = r['req'] if r['req'] else ([r['dflt']] if r['dflt'] else [])
             if any(gd.get(x) for x in eff):
                 ctx.cov['distinct_nontrivial'] += 1
-            cases.append((model_term(r, orig), out_val(r['out'])))
             recs.append(r)
     # a second hash seed changes the iteration order of the dependency sets
     res2 = run_worker(ctx, 'seed1', [
@@ -524,19 +561,21 @@ def run(ctx):
                 if key in seen:
                     continue
                 seen.add(key)
-                cases.append((model_term(r, orig), out_val(r['out'])))
                 recs.append(r)
     for r in recs[:: max(1, len(recs) // 8)]:
         ctx.note_sample({'graph': dict((n, ds) for n, ds in r['g']), 'targets': r['req'], 'default': r['dflt'], 'impl': r['out'][:2]})
-    ctx.cov['stages']['correspondence_cases'] = len(cases)
+    cases, members = build_cases(recs, orig)
+    ctx.cov['stages']['correspondence_cases'] = len(recs)
+    ctx.cov['stages']['correspondence_coq_terms'] = len(cases)
     ctx.cov['stages']['correspondence_model'] = 'Model.Tasks.Orig.run' if orig else 'Model.Tasks.run'
-    bad = ctx.run_cases('tasks', ['Spec.BuildSpec', 'Model.Tasks'], cases)
+    ctx.cov['evaluations'] -= len(cases)          # run_cases counts terms; runs were counted per family above
+    bad = run_cases_chunked(ctx, cases)
     if bad:
-        for i in bad[:5]:
-            ctx.log('model/implementation disagree:', recs[i])
-        r = recs[bad[0]]
-        ctx.failed_stages.append(('correspondence', '%s disagrees with ppci.build.tasks on %d cases, first: graph=%r targets=%r '
-                                  'default=%r impl=%r' % ('Orig.run' if orig else 'run', len(bad), r['g'], r['req'], r['dflt'], r['out'][:2])))
+        for i in bad[:3]:
+            ctx.log('model/implementation disagree on one of:', [(m['g'], m['req'], m['dflt'], m['out'][:2]) for m in members[i]][:4])
+        r = members[bad[0]][0]
+        ctx.failed_stages.append(('correspondence', '%s disagrees with ppci.build.tasks on %d graph groups, first group: graph=%r '
+                                  'default=%r' % ('Orig.run' if orig else 'run', len(bad), r['g'], r['dflt'])))
         if ctx.quick():
             # deep oracle sweep to look for a concrete failing input
             res3 = run_worker(ctx, 'deep', [{'kind': 'labelled', 'n': 4, 'loops': True, 'records': False,
